@@ -143,7 +143,9 @@ let handle_cl id tag body =
         let items s = if s = "-" then [] else SS.split_on_char ',' s in
         let ia = items a and ib = items body in
         if a = "ERROR" || body = "ERROR" then ()
-        else if L.length ia <> L.length ib then report "call-sequence-changed" id
+        (* a different number of calls means the program itself changed: that is C02's finding (and listed there per input);
+           the rule about the form of calls has nothing to compare *)
+        else if L.length ia <> L.length ib then (incr outside; Printf.printf "OUTSIDE call-sequence-changed %s\n" id)
         else begin
           let m = (match cfgval !cur_words "call_parentheses" "Always" with
                    | "Always" -> CallForm.Always | "NoSingleString" -> CallForm.NoSingleString | "NoSingleTable" -> CallForm.NoSingleTable
